@@ -20,6 +20,7 @@ const batchPkg = "oxia/internal/batch"
 func checkC20(c *chk.Ctx) {
 	h := newH(c)
 	c.Decided = []string{
+		"R20i a batch that accepted its calls is sent: Complete fails the queued calls only after the request was executed and failed (whatever CanAdd admitted must not be refused afterwards)",
 		"R20a positional mapping: every callback is invoked with response.<F>[i] where i is the index of its own call in the slice that toProto serialises into request.<F>",
 		"R20b a non-empty batch is answered through exactly one of Fail / handle; both walk every call slice that toProto serialises and invoke each element's callback on every iteration; the batcher adds every received call to a batch before receiving the next",
 		"R20h in the batcher's run loop a stopped linger timer never belongs to a batch that stays open: after every timer.Stop() the batch variable is re-assigned (nil or a fresh batch) before the loop waits again",
@@ -35,6 +36,7 @@ func checkC20(c *chk.Ctx) {
 	ruleR20ab(h)
 	ruleR20run(h)
 	ruleR20timer(h)
+	ruleR20i(h)
 	ruleR20c(h)
 	ruleR20e(h)
 	ruleR20f(h)
@@ -1044,5 +1046,52 @@ func ruleR20timer(h *H) {
 	}
 	if n == 0 {
 		h.Anchor(rule, "timer.Stop() calls in the Batcher.Run implementation")
+	}
+}
+
+// ruleR20i: CanAdd decides what fits into a batch; once calls were accepted, Complete has
+// to send them. A second, differently bounded test in Complete that fails the whole batch
+// makes the result of an operation depend on how operations were grouped.
+func ruleR20i(h *H) {
+	const rule = "R20i"
+	h.Rule(rule, "K1", "in the batches' Complete every call of Fail happens after the request was executed (on its error path)", 2)
+	n := 0
+	for _, bt := range batchTypes(h) {
+		tn := bt.Obj().Name()
+		_, tp := toProtoMapping(h, tn)
+		failFn := h.P.Func(batchPkg, tn, "Fail")
+		complete := h.P.Func(batchPkg, tn, "Complete")
+		if failFn == nil || complete == nil {
+			continue
+		}
+		// the call that executes the request, as seen from Complete itself
+		var exec ssa.Instruction
+		for _, fn := range helperFuncs(complete) {
+			ir.Instrs(fn, func(in ssa.Instruction) {
+				c := ir.CallOf(in)
+				if c == nil || exec != nil {
+					return
+				}
+				if f := c.StaticCallee(); f != nil && f != tp && f != failFn && f.Signature.Recv() != nil && ir.TypeIs(f.Signature.Recv().Type(), batchPkg, tn) && f.Signature.Results().Len() == 2 && ir.HasErrResult(in.(ssa.CallInstruction)) {
+					exec = liftToRoot(complete, in)
+				}
+			})
+		}
+		for _, fn := range helperFuncs(complete) {
+			ir.Instrs(fn, func(in ssa.Instruction) {
+				c := ir.CallOf(in)
+				if c == nil || c.StaticCallee() != failFn {
+					return
+				}
+				n++
+				h.Fn(ir.FuncName(fn))
+				at := liftToRoot(complete, in)
+				ok := exec != nil && at != nil && at != exec && ir.Dominates(exec, at)
+				h.Verdict(ok, rule, fmt.Sprintf("Fail #%d in %s", n, ir.FuncName(complete)), h.pos(in), "only after the request was executed", "Complete fails a batch it never sent: calls that CanAdd accepted are refused afterwards, so the outcome of an operation depends on how operations happened to be grouped")
+			})
+		}
+	}
+	if n == 0 {
+		h.Anchor(rule, "calls of Fail in the batches' Complete")
 	}
 }
